@@ -196,7 +196,7 @@ __CPROVER_loop_invariant((cdag == g_cx && G_ENTRY >= 0 && cdag_map_it.pos > G_EN
 __CPROVER_decreases(cdag_block_map.right.n - cdag_map_it.pos)
 //@end
 
-//@harness h_FOC_computeAll enforce=FieldOperatorContainer_computeAll props=C10 min_obl=7250 reach=4 timeout=450
+//@harness h_FOC_computeAll enforce=FieldOperatorContainer_computeAll props=C10 min_obl=7184 reach=4 timeout=450
 void h_FOC_computeAll(void)
 {
   struct FieldOperatorContainer *p;
